@@ -343,9 +343,14 @@ class EditableModule(object):
         # run the method and see which one has the gradients
         try:
             output = method(*args, **kwargs)
-            if not isinstance(output, torch.Tensor):
+            if isinstance(output, (list, tuple)) and len(output) > 0 and \
+                    all(isinstance(out, torch.Tensor) for out in output):
+                # a method with several tensor outputs (the functionals accept those)
+                output = sum(out.sum() for out in output)
+            elif not isinstance(output, torch.Tensor):
                 raise RuntimeError("The method to be asserted must have a tensor output")
-            output = output.sum()
+            else:
+                output = output.sum()
             grad_tensors = torch.autograd.grad(output, copy_tensors0, retain_graph=True, allow_unused=True)
         finally:
             # return the original tensor (also if the method raises)
